@@ -17,7 +17,7 @@ _re_dec = re.compile(r'^(0|[1-9][0-9]{0,8})(\.[0-9]{1,8})?$')
 # characters the lexer refuses to reason about (Go's and Python's notions of
 # white space differ on them): control characters except TAB, and every
 # non-ASCII space
-_re_odd = re.compile('[\x00-\x08\x0a-\x1f\x7f\x85\xa0\u1680\u2000-\u200b\u2028\u2029\u202f\u205f\u3000\ufeff]')
+_re_odd = re.compile('[\x00-\x08\x0a-\x1f\x7f\x85\xa0\u1680\u2000-\u200b\u2028\u2029\u202f\u205f\u3000\ufeff\udc80-\udcff]')
 
 
 def canon_float(f):
@@ -218,7 +218,8 @@ JUNK = [' title: x', 'title x', 'unknown: v', '--- ', '----', ' ---', '}', '{', 
         'x,y', 'depth: abc', 'depth: 1.5', 'depth: 99999999999999999999999', 'depth: +5', 'depth: 007', 'error: x', 'error: NaN', 'error: 1e999', 'error: 1e-3',
         'issue:', 'title:   # only a comment', 'counter: a{b,}', 'counter: {', 'counter: a{ b }', 'counter: a{b, c}', 'Title: x', 'title : x', ':', 'title:', '\ttitle: y',
         'title: a\x00b', 'title:  x', '---\r', 'counter: x:{a,\r', 'b}x', ',a', 'a}b}', '}}', 'counter:{a}', 'counter: x:{}', 'counter: x:{', 'issue: {', 'description: }{',
-        'title: ' + 'x' * 5000, '﻿', 'counter: a,b}', 'depth: -', 'depth: 9223372036854775808']
+        'title: ' + 'x' * 5000, 'title: \udcff\udcfe bad utf-8', '\udc80', 'counter: x:{\udcc3,', 'title:\u00a0nbsp', 'title: x\u2003', '\u2028', 'title: a\vb', '\f---',
+        'description: \u0085', 'issue: \ud7ff\ue000', '﻿', 'counter: a,b}', 'depth: -', 'depth: 9223372036854775808']
 
 
 # ----------------------------------------------------------------- versions
